@@ -321,9 +321,27 @@ def _fold_expression_function(fn, expr: ast.AST, refs: list[ast.AST], parents, i
         p = parents.get(id(r))
         if isinstance(p, ast.Call) and p.func is r:
             mapping, prelude = _bind(fn, p, is_method, static)
+            hoist = None
             if prelude:
-                raise NotInlinable('expression helper called with complex arguments')
-            plan.append((p, _Subst(mapping, {}).visit(copy.deepcopy(expr))))
+                # complex arguments: evaluate them into fresh temporaries just before the statement that contains the call (sound when that
+                # statement evaluates the call exactly once and nothing delays it: not a loop test, not under a lambda / comprehension)
+                node, st = p, parents.get(id(p))
+                while st is not None and not isinstance(st, ast.stmt):
+                    if isinstance(st, (ast.Lambda, ast.ListComp, ast.SetComp, ast.DictComp, ast.GeneratorExp)):
+                        raise NotInlinable('expression helper with complex arguments called under a lambda / comprehension')
+                    node, st = st, parents.get(id(st))
+                ok = isinstance(st, (ast.Expr, ast.Assign, ast.AnnAssign, ast.AugAssign, ast.Return, ast.Raise, ast.Assert)) or (isinstance(st, ast.If) and node is st.test) \
+                    or (isinstance(st, (ast.For, ast.AsyncFor)) and node is st.iter)
+                blk = _containing_block(st, parents) if ok else None
+                if blk is None:
+                    raise NotInlinable('expression helper called with complex arguments in a position they cannot be hoisted from')
+                for asg in prelude:
+                    _COUNTER[0] += 1
+                    tmp = f'__inl_arg_{_COUNTER[0]}'
+                    mapping[asg.targets[0].id] = ast.Name(id=tmp, ctx=ast.Load())  # type: ignore[union-attr]
+                    asg.targets[0].id = tmp  # type: ignore[union-attr]
+                hoist = (blk, st, prelude)
+            plan.append((p, _Subst(mapping, {}).visit(copy.deepcopy(expr)), hoist))
         else:
             if is_method and not static:
                 raise NotInlinable('bound-method reference')
@@ -332,9 +350,13 @@ def _fold_expression_function(fn, expr: ast.AST, refs: list[ast.AST], parents, i
             for x in ast.walk(lam.args):
                 if isinstance(x, ast.arg):
                     x.annotation = None
-            plan.append((r, lam))
-    for old, new in plan:
+            plan.append((r, lam, None))
+    for old, new, hoist in plan:
         _replace(parents, old, ast.copy_location(new, old))
+        if hoist is not None:
+            blk, st, prelude = hoist
+            i = next(k for k, x in enumerate(blk) if x is st)
+            blk[i:i] = prelude
 
 
 def _replace(parents, old: ast.AST, new: ast.AST) -> None:
